@@ -79,6 +79,7 @@ type Sched struct {
 	active   bool
 	killing  bool
 	closed   map[uintptr]bool
+	keep     []reflect.Value // closed channels are pinned so that their addresses are not reused within the execution
 	finished chan struct{}
 
 	// results
@@ -90,6 +91,8 @@ type Sched struct {
 	MaxSteps  int
 	Trace     []string
 	KeepTrace bool
+	// TimerFires lists the step numbers at which a virtual timer fired.
+	TimerFires []int
 
 	prefix    []int
 	Decisions []Decision
@@ -322,6 +325,7 @@ func (s *Sched) isClosed(v reflect.Value) bool {
 		x, ok := v.TryRecv()
 		if !ok && x.IsValid() {
 			s.closed[p] = true
+			s.keep = append(s.keep, v) // pin: the address must not be reused by a new channel
 			return true
 		}
 		if ok {
@@ -722,6 +726,7 @@ func CloseCh[E any](c chan E) {
 	S.yield(t, &pending{kind: opPoint, what: "close"})
 	S.mu.Lock()
 	S.closed[chanPtr(reflect.ValueOf(c))] = true
+	S.keep = append(S.keep, reflect.ValueOf(c))
 	S.mu.Unlock()
 	close(c)
 }
@@ -734,6 +739,7 @@ func MarkClosed(c any) {
 	}
 	s.mu.Lock()
 	s.closed[chanPtr(reflect.ValueOf(c))] = true
+	s.keep = append(s.keep, reflect.ValueOf(c))
 	s.mu.Unlock()
 }
 
@@ -847,6 +853,18 @@ func Now() time.Time {
 	s.mu.Lock()
 	defer s.mu.Unlock()
 	return s.now
+}
+
+// Step is the number of scheduler steps of the current execution so far: a
+// logical timestamp for harness event logs.
+func Step() int {
+	s := S
+	if s == nil || !s.active {
+		return 0
+	}
+	s.mu.Lock()
+	defer s.mu.Unlock()
+	return s.Steps
 }
 
 // Elapsed is virtual time since the start of the execution.
@@ -973,6 +991,7 @@ func (s *Sched) fireTimerLocked(t *Timer) {
 	} else {
 		t.armed = false
 	}
+	s.TimerFires = append(s.TimerFires, s.Steps)
 	if s.KeepTrace {
 		s.Trace = append(s.Trace, fmt.Sprintf("timer#%d@%v", t.seq, s.now.Sub(Epoch)))
 	}
